@@ -272,6 +272,12 @@ def run(rep):
             obl.append(("w_sfill_%d" % n, "static_fill", m, None, fname))
             lines.append("void w_sgen_%d(%s& p0){ static_generate(p0, g0()); }" % (n, m.cxx_type()))
             obl.append(("w_sgen_%d" % n, "static_generate", m, None, fname))
+            # static_max / static_min: the address returned by the non-const overload, the value returned by the const overload
+            for which in ("max", "min"):
+                lines.append("iptr w_sx%s_%d(%s& p0){ return (iptr)&static_%s(p0); }" % (which, n, m.cxx_type(), which))
+                obl.append(("w_sx%s_%d" % (which, n), "static_extremum", m, (which, "address"), fname))
+                lines.append("std::uint8_t w_sxc%s_%d(%s const& p0){ return static_%s(p0); }" % (which, n, m.cxx_type(), which))
+                obl.append(("w_sxc%s_%d" % (which, n), "static_extremum", m, (which, "value"), fname))
         # planar reference built from a mutable pixel, and reference-of-channels pixels: cells by colour
         for m in vals:
             if m.n < 3 or m.n > 4:
@@ -304,6 +310,8 @@ def run(rep):
     rep.rule("address: &at_c<K> = base+K, &semantic_at_c<K> = &get_color(colour K) = base + position of that colour in the layout")
     rep.rule("get_color_bits: packed/bit-aligned get_color/semantic_at_c/at_c return exactly the colour's bit range")
     rep.rule("static_*: the opaque functor is called exactly once per channel with same-colour cells; results stored to the same colour")
+    rep.rule("static_max / static_min (const and non-const overload, every byte layout): the inlined IR is a comparison-only select chain; interpreted over every weak "
+             "ordering of the channels (the finite set a comparison-only computation can distinguish) it returns a channel of the largest / smallest rank")
     W = "include/boost/gil/color_base.hpp, color_base_algorithm.hpp, pixel.hpp, packed_pixel.hpp, planar_pixel_reference.hpp, bit_aligned_pixel_reference.hpp"
     for o in obl:
         name, kind = o[0], o[1]
@@ -338,10 +346,104 @@ def run(rep):
     rep.floor("obligations:address", 60)
     rep.floor("obligations:static_for_each", 40)
     rep.floor("obligations:static_transform", 40)
+    rep.floor("obligations:static_extremum", 40)
+
+
+def weak_orderings(n):
+    """every assignment of ranks 0..k-1 (all used) to n cells: the finite set of orderings that a comparison-only computation can distinguish"""
+    out = []
+    for t in itertools.product(range(n), repeat=n):
+        if set(t) == set(range(max(t) + 1)):
+            out.append(t)
+    return out
+
+
+def eval_ordering(fn, ranks):
+    """interprets a comparison-only IR function over one ordering of the cells of its pixel argument: pointers are offsets into a0, a loaded cell is its rank.
+    Returns ("addr", offset) or ("val", rank); raises Unsupported on anything else (arithmetic on cells, stores, calls)."""
+    blocks = {b["id"]: b for b in fn["blocks"]}
+    env = {}
+
+    def val(o):
+        if o["k"] == "arg":
+            if o["id"] != "a0":
+                raise Unsupported("argument %s" % o["id"])
+            return ("addr", 0)
+        if o["k"] == "c":
+            return ("int", int(o["s"]))
+        if o["id"] not in env:
+            raise Unsupported("use before definition of %s" % o["id"])
+        return env[o["id"]]
+    cur, prev, steps = fn["blocks"][0], None, 0
+    while True:
+        for i in cur["insts"]:
+            steps += 1
+            if steps > 2000:
+                raise Unsupported("no termination")
+            op, ops = i["op"], i.get("ops", [])
+            if op in ("bitcast", "zext", "sext", "ptrtoint", "inttoptr", "freeze"):
+                env[i["id"]] = val(ops[0])
+            elif op == "getelementptr":
+                b = val(ops[0])
+                if b[0] != "addr" or i.get("gep_terms"):
+                    raise Unsupported("non-constant address")
+                env[i["id"]] = ("addr", b[1] + i["gep_const"])
+            elif op == "load":
+                a = val(ops[0])
+                if a[0] != "addr" or i.get("size") != 1 or not 0 <= a[1] < len(ranks):
+                    raise Unsupported("load of %r" % (a,))
+                env[i["id"]] = ("val", ranks[a[1]])
+            elif op == "icmp":
+                a, b = val(ops[0]), val(ops[1])
+                if a[0] != "val" or b[0] != "val":
+                    raise Unsupported("comparison of %r and %r" % (a, b))
+                pr = i["pred"]
+                r = {"eq": a[1] == b[1], "ne": a[1] != b[1]}.get(pr)
+                if r is None:
+                    r = {"lt": a[1] < b[1], "le": a[1] <= b[1], "gt": a[1] > b[1], "ge": a[1] >= b[1]}[pr[1:]]
+                env[i["id"]] = ("int", int(r))
+            elif op == "select":
+                c = val(ops[0])
+                env[i["id"]] = val(ops[1]) if c[1] else val(ops[2])
+            elif op == "phi":
+                inc = [q["v"] for q in i.get("incoming", []) if q["bb"] == prev]
+                if len(inc) != 1:
+                    raise Unsupported("phi")
+                env[i["id"]] = val(inc[0])
+            elif op == "br":
+                prev = cur["id"]
+                succ = cur.get("succ", [])
+                if len(succ) == 1:
+                    cur = blocks[succ[0]]
+                elif len(succ) == 2 and len(ops) == 3:
+                    cur = blocks[succ[0] if val(ops[0])[1] else succ[1]]
+                else:
+                    raise Unsupported("branch")
+                break
+            elif op == "ret":
+                return val(ops[0])
+            else:
+                raise Unsupported("instruction %s in a comparison-only function" % op)
+        else:
+            raise Unsupported("block without terminator")
 
 
 def check_one(rep, fn, o, W):
     name, kind = o[0], o[1]
+    if kind == "static_extremum":
+        m, (which, form) = o[2], o[3]
+        key = "static_%s:%s:%s" % (which, m.tag(), form)
+        pick = max if which == "max" else min
+        for ranks in weak_orderings(m.n):
+            r = eval_ordering(fn, ranks)
+            got = ranks[r[1]] if r[0] == "addr" and 0 <= r[1] < m.n else r[1] if r[0] == "val" else None
+            if got != pick(ranks):
+                cells = ", ".join("%s=%d" % (m.mem[k], ranks[k]) for k in range(m.n))
+                rep.violation("static_extremum", key, W, {"wrapper": name, "problem": "for the channel values %s static_%s returns %s" % (
+                    cells, which, ("the %s channel (%d)" % (m.mem[r[1]], got)) if r[0] == "addr" and got is not None else got)})
+                return
+        rep.ok("static_extremum", key, {"orderings": len(weak_orderings(m.n))})
+        return
     if kind in ("assign", "construct"):
         d, s, fname = o[2], o[3], o[4]
         key = "%s:%s<-%s" % (kind, d.tag(), s.tag())
